@@ -184,6 +184,28 @@ def run(ctx):
         run_stream(ctx, m, proto, vals, data, cuts, eps, "large %s" % pname)
         ctx.sample({"protocol": pname, "stream_bytes": len(data), "blocks": len(sizes), "cuts": len(cuts), "cuts_at_64KiB_multiples": [x for x in cuts if x % 65536 == 0]})
     m.close()
+    # single contiguous values of more than 64 KiB (bulk read paths), as a stream item and as the last step
+    bpkg, bcases = corpus.big_package()
+    bm = rt.prepare_model(ctx, "bigvals", bpkg, ["plain", "ndebug"])
+    if bm is None:
+        raise Inconclusive("big-value model did not build")
+    bc = bm.codec
+    beps = [rt.CppEndpoint(bm, "plain"), rt.CppEndpoint(bm, "ndebug"), rt.PyEndpoint(bm)]
+    for pname, t, v in (bcases[:3] + bcases[6:8] if quick else bcases):
+        proto = bpkg.find(pname)
+        vals = [7, v, [v], "t"]
+        data = bc.encode_stream(proto, bm.schema(pname), vals)
+        rr = rng("C16bigval", pname)
+        start = len(bc.encode_stream(proto, bm.schema(pname), vals, upto=1))
+        cuts = set([len(data) - 1, len(data) - 2, len(data) - 3, start + 1, start + 10])
+        for k in range(1, len(data) // 65536 + 1):
+            for d in (-1, 0, 1, 7):
+                cuts.add(k * 65536 + d)
+        for _ in range(12 if quick else 80):
+            cuts.add(rr.randrange(start, len(data)))
+        cuts = sorted(x for x in cuts if 0 <= x < len(data))
+        run_stream(ctx, bm, proto, vals, data, cuts, beps, "bigvalue %s" % pname)
+    bm.close()
     cxx.prune_cache()
 
 
